@@ -113,7 +113,7 @@ func mergeTiny(rp *runner.Report) {
 	if !got {
 		rp.Notes = append(rp.Notes, fmt.Sprintf("tiny-build part did not complete: %v", err))
 		rp.Exhaustive = false
-		if ee, ok := err.(*exec.ExitError); ok && ee.ExitCode() != 0 {
+		if ee, ok := err.(*exec.ExitError); ok && ee.ExitCode() > 0 {
 			// the child was aborted by the Go runtime while driving the library (its message is on stderr)
 			rp.Violation(&runner.ReplayFile{Scenario: "check-" + rp.Prop + "-tiny", Sig: "check-process-died", Kind: "crash",
 				Msg:     fmt.Sprintf("the process exploring the library in the tiny build was aborted (exit status %d); see the runtime's message above", ee.ExitCode()),
